@@ -393,6 +393,108 @@ def _pack_betdaq(args):
         return r
 
 
+_BDQ_REQ = {
+    "C": ("cancel", dict()),
+    "Cp": ("cancel", dict(size_reduction=1.0)),
+    "U1": ("update", dict(size_delta=-1.0, new_price=2.2)),
+    "U2": ("update", dict(size_delta=5.0, new_price=3.0)),
+    "R": ("replace", dict(new_price=2.4)),
+}
+
+
+def _betdaq_refusals(args):
+    """Betdaq: every sequence of <= 3 cancel / partial cancel / update / replace requests on an order in each
+    state (no bet id yet, executable, complete), issued directly on the market or batched in one transaction.
+    A refused request (False or an OrderUpdateError / ControlError raised to the caller) leaves everything as
+    it was; the instructions finally delivered are those of the accepted requests, once each."""
+    state0, seq, batched = args
+    from flumine import BaseStrategy
+    from flumine.clients import BetdaqClient
+    from flumine.exceptions import FlumineException
+    from flumine.order.trade import Trade
+    from flumine.order.ordertype import BetdaqLimitOrder
+    from flumine.markets.market import Market
+    from mc import livex
+
+    case = dict(world="betdaq-refusals", state=state0, seq=list(seq), batched=batched)
+    out = []
+    counts = {"clause:C02.a": 0, "clause:C02.b": 0, "betdaq_refused": 0, "betdaq_accepted": 0}
+    LiveFlumine, _ = livex.live_classes()
+    with core.owned_config(simulated=False):
+        client = BetdaqClient(None, username="bdq")
+        fw = LiveFlumine(client)
+        pk = []
+        fw.process_order_package = lambda p: pk.append(p)
+        st = BaseStrategy(market_filter={}, name="bdq", max_order_exposure=None, max_selection_exposure=None, max_live_trade_count=10)
+        fw.strategies(st, fw.clients, fw)
+        w0 = livex.LiveWorld([])
+        w0.clock_ms = livex.T0
+        cache = w0._make_book("1.100000001")
+        m = Market(fw, "1.100000001", cache.create_resource(1, snap=True))
+        fw.markets.add_market("1.100000001", m)
+        tr = Trade("1.100000001", 1, 0, st)
+        o = tr.create_betdaq_order("BACK", BetdaqLimitOrder(2.0, 4.0, betdaq_runner_id=111, runner_reset_count=0, withdrawal_sequence_number=0))
+        if m.place_order(o) is not True:
+            raise core.HarnessError("betdaq placement refused in the set-up")
+        if state0 != "nobet":
+            o.bet_id = 9000
+            o.responses.placed()
+            o.executable()
+            if state0 == "complete":
+                o.execution_complete()
+                m.blotter.complete_order(o)
+        pk.clear()
+
+        class W:
+            framework = fw
+
+        accepted = []
+        t = m.transaction(client=client) if batched else None
+        if t is not None:
+            t.__enter__()
+        for name in seq:
+            kind, kw = _BDQ_REQ[name]
+            before = L.snapshot(W, o)
+            size0 = o.order_type.size
+            npk = len(pk)
+            try:
+                target = t if t is not None else m
+                res = getattr(target, kind + "_order")(o, **kw)
+            except FlumineException as e:
+                res = "raise:" + type(e).__name__
+            except Exception as e:  # not a refusal: a defect
+                out.append(core.v("C02.a", (kind, "betdaq", state0, "exception"), "%s raised %r" % (name, e), case))
+                break
+            counts["clause:C02.a"] += 1
+            if res is True:
+                counts["betdaq_accepted"] += 1
+                accepted.append((kind, dict(o.update_data)))
+            else:
+                counts["betdaq_refused"] += 1
+                after = L.snapshot(W, o)
+                if after != before or o.order_type.size != size0:
+                    out.append(core.v("C02.a", (kind, "betdaq", state0, ",".join(L.snap_diff(before, after)) or "size"), "refused %s (%r) on a %s order after %r changed %s" % (name, res, state0, [k for k, _ in accepted], L.snap_diff(before, after)), case))
+                if len(pk) != npk:
+                    out.append(core.v("C02.a", (kind, "betdaq", state0, "sent"), "refused %s produced a package" % name, case))
+        if t is not None:
+            t.__exit__(None, None, None)
+        counts["clause:C02.b"] += 1
+        sent = [(p.package_type.name.lower(), x) for p in pk for x in p.orders]
+        if [k for k, _ in sent] != [k for k, _ in accepted] or any(x is not o for _, x in sent):
+            out.append(core.v("C02.b", ("betdaq", state0, "delivery"), "accepted %r but delivered %r" % ([k for k, _ in accepted], [k for k, _ in sent]), case))
+        else:
+            # the update instruction finally built carries the payload of the accepted request
+            for (kind, ud), p in zip(accepted, pk):
+                if kind == "update":
+                    ins = p.update_instructions
+                    exp = dict(BetId=9000, DeltaStake=ud.get("DeltaStake"), Price=ud.get("Price"))
+                    if len(ins) != 1 or any(ins[0].get(k) != v for k, v in exp.items()):
+                        out.append(core.v("C02.b", ("betdaq", state0, "payload"), "accepted update %r delivered as %r" % (exp, ins), case))
+        if t is not None and (t._pending_place or t._pending_cancel or t._pending_update or t._pending_replace):
+            out.append(core.v("C02.b", ("betdaq", state0, "left-queued"), "requests left queued after the transaction ended", case))
+    return dict(violations=out, counts=counts)
+
+
 def run(tier):
     rep = core.Report("C02", tier, "E1 simx")
     thorough = tier == "thorough"
@@ -426,6 +528,21 @@ def run(tier):
     rep.traces += len(pj) + len(bj)
     rep.states += len(pj) + len(bj)
     rep.need("refused_requests", "accepted_requests", "packages", "forced_accepted", "refused_new_orders", "refused_inflight_or_live", "packaging_cases", "chunked_cases", "multi_version_cases")
+    rj = []
+    names = list(_BDQ_REQ)
+    for st0 in ("nobet", "executable", "complete"):
+        for n in (1, 2, 3):
+            for seq in itertools.product(names, repeat=n):
+                for batched in (False, True):
+                    rj.append((st0, seq, batched))
+    for r in core.pmap(_betdaq_refusals, rj):
+        rep.add_violations(r["violations"])
+        rep.merge_counts(r["counts"])
+        rep.transitions += 1
+        rep.traces += 1
+    rep.states += len(rj)
+    rep.need("betdaq_refused", "betdaq_accepted")
+    rep.bounds.update(betdaq_refusal_sequences=len(rj))
     rep.bounds.update(packaging=dict(sim_cases=len(pj), betdaq_cases=len(bj), n=["0", "1", "limit-1", "limit", "limit+1", "2*limit+1"], version_patterns=len(patterns)))
     rep.rule = "BFS with canonical-state dedup over histories of requests issued directly and batched in transactions (explicit execute() at several positions, a request refused in the middle, the same order twice), with every default control made to refuse by a real cause (off-ladder price, bad size, exposure, market suspended, runner accounting, transaction limit) and a custom client control raising ControlError at its j-th call, forced variants; packaging: n requests of each kind in one transaction for n around the per-call limits (200/60/60/60; Betdaq 10/10/50) x market-version patterns"
     rep.assumptions = [
@@ -440,6 +557,8 @@ def replay(rep):
     c = rep["case"]
     if "history" in c:
         r = _run((c["history"], c["cfg"]))
+    elif c.get("world") == "betdaq-refusals":
+        r = _betdaq_refusals((c["state"], tuple(c["seq"]), c["batched"]))
     elif c.get("world") == "betdaq":
         r = _pack_betdaq((c["kind"], c["n"]))
     else:
